@@ -9,9 +9,10 @@
                            to its declared signature;
      (18c) C18_idle_sound  is_sess_idle() = True only with nothing queued,
                            in flight, or buffered.
-   NOT YET PROVED (in progress, Proofs/TcpclRobustC18b.v.wip): (18b) queue
-   consistency -- C18_tx_queue, C18_rx_queue, C18_pop_once,
-   C18_finished_at_most_once, C18_started_before_finished_success.
+     (18b) queue consistency, unconditionally (in the model a closed endpoint
+           keeps its queues): C18_tx_queue, C18_finished_at_most_once,
+           C18_finished_was_queued, C18_started_before_finished_success,
+           C18_rx_queue (+ no duplicates), C18_pop_once.
    (The tie of the idle predicate to the code's conjunction is in
    Props/TcpclTie.v and is not repeated here.)
 
@@ -26,7 +27,7 @@
 From Coq Require Import List NArith Bool.
 Import ListNotations.
 From DTN Require Import Lib.Bytes Model.TcpclMsg Model.TcpclSess Gen.DBusSigs Model.DbusSig
-  Proofs.TcpclRobustLib Proofs.TcpclRobustC18.
+  Proofs.TcpclRobustLib Proofs.TcpclRobustC18 Proofs.TcpclRobustC18b.
 Local Open Scope N_scope.
 
 (* ---- (18a) *)
@@ -72,4 +73,73 @@ Example C18_idle_sound_nonvacuous :
   q_idle (run c18_cfg [OStart]) = true
   /\ q_idle (run c18_cfg [OStart; OSend [1]]) = false
   /\ q_idle (run c18_cfg [OStart; ORx [100; 116]]) = false.
+Proof. vm_compute. repeat split. Qed.
+
+(* ---- (18b) the send queue: queued and not yet finished *)
+Theorem C18_tx_queue : forall c ops id,
+  let s := run c ops in
+  In id (q_tx_queue s) <->
+  (In (ERet 1 (PStrNum id)) (trace s)
+   /\ ~ exists len r, In (ESig SigSendFinished [PStrNum id; PInt len; PStr r]) (trace s)).
+Proof. exact tx_queue. Qed.
+Print Assumptions C18_tx_queue.
+
+(* for each id at most one send_bundle_finished: fin_ids lists the ids of the
+   send_bundle_finished signals of a trace, in order *)
+Theorem C18_finished_at_most_once : forall c ops, NoDup (fin_ids (trace (run c ops))).
+Proof. exact finished_at_most_once. Qed.
+Print Assumptions C18_finished_at_most_once.
+
+Theorem C18_finished_at_most_once_split : forall c ops id l1 r1 l2 r2 a b d,
+  trace (run c ops) = a ++ ESig SigSendFinished [PStrNum id; PInt l1; PStr r1] :: b
+                        ++ ESig SigSendFinished [PStrNum id; PInt l2; PStr r2] :: d -> False.
+Proof. exact finished_at_most_once_split. Qed.
+Print Assumptions C18_finished_at_most_once_split.
+
+Theorem C18_finished_was_queued : forall c ops id len r,
+  let s := run c ops in
+  In (ESig SigSendFinished [PStrNum id; PInt len; PStr r]) (trace s) ->
+  In (ERet 1 (PStrNum id)) (trace s) /\ id < next_id s.
+Proof. exact finished_was_queued. Qed.
+Print Assumptions C18_finished_was_queued.
+
+Theorem C18_started_before_finished_success : forall c ops id len pre post,
+  trace (run c ops) = pre ++ ESig SigSendFinished [PStrNum id; PInt len; PStr RES_SUCCESS] :: post ->
+  exists n, In (ESig SigSendStarted [PStrNum id; PInt n]) pre.
+Proof. exact started_before_finished_success. Qed.
+Print Assumptions C18_started_before_finished_success.
+
+(* the receive queue: the last event about id among recv_bundle_finished /
+   recv_bundle_pop_data is a recv_bundle_finished (rx_avail) *)
+Theorem C18_rx_queue : forall c ops id,
+  let s := run c ops in In id (q_rx_queue s) <-> rx_avail id (trace s) = true.
+Proof. exact rx_queue. Qed.
+Print Assumptions C18_rx_queue.
+
+Theorem C18_rx_queue_nodup : forall c ops, NoDup (q_rx_queue (run c ops)).
+Proof. exact rx_queue_nodup. Qed.
+Print Assumptions C18_rx_queue_nodup.
+
+(* a pop removes the transfer: a second pop without a new delivery is a KeyError *)
+Theorem C18_pop_once : forall c ops id,
+  let s := run c ops in
+  closed s = false -> rx_avail id (trace s) = false ->
+  step s (OPop id) = emit (EExc EX_KEY) s.
+Proof. exact pop_once. Qed.
+Print Assumptions C18_pop_once.
+
+Theorem C18_not_available_after_pop : forall id d tr evs,
+  (forall e, In e evs -> forall b, In (id, b) (rxlog_of e) -> b = false) ->
+  rx_avail id (tr ++ [EPop id d] ++ evs) = false.
+Proof. exact rx_avail_after_pop. Qed.
+Print Assumptions C18_not_available_after_pop.
+
+Example C18_queues_nonvacuous :
+  let s1 := run c18_cfg (firstn 8 c18_ops) in
+  let s2 := run c18_cfg c18_ops in
+  q_rx_queue s1 = [5] /\ rx_avail 5 (trace s1) = true
+  /\ q_rx_queue s2 = [] /\ rx_avail 5 (trace s2) = false
+  /\ trace (step s2 (OPop 5)) = trace s2 ++ [EExc EX_KEY]
+  /\ q_tx_queue (run c18_cfg (firstn 5 c18_ops)) = [1]
+  /\ q_tx_queue s2 = [] /\ fin_ids (trace s2) = [1].
 Proof. vm_compute. repeat split. Qed.
